@@ -93,14 +93,13 @@ func genC14Incomplete(t *rapid.T) c14IncompleteCase {
 	name := pick("name", "requests", "zope.interface", "My_Package", "a")
 	version := pick("version", "1.4.2", "2.0.0rc1", "0!1.0+local.1")
 	c := c14IncompleteCase{}
-	// Families 8 and 9 (a record with an EMPTY name / version through each C03 renderer) are
-	// exploratory and off by default: on the unchanged tree the composer.lock, poetry.lock,
-	// Cargo.lock, Pipfile.lock, package-lock.json and packages.lock.json readers emit the
-	// record of a `"name": ""` entry as a package with an empty name (reported to the
-	// coordinator; VERIF_C14_EMPTY_FIELD=1 VERIF_C14_SURVEY=1 lists them).
-	maxFam := 7
-	if os.Getenv("VERIF_C14_EMPTY_FIELD") != "" {
-		maxFam = 9
+	// Families 8 and 9: a record with an EMPTY name / version through each C03 renderer. The
+	// composer.lock, poetry.lock, Cargo.lock, Pipfile.lock, package-lock.json and
+	// packages.lock.json readers used to emit the record of a `"name": ""` entry as a package
+	// with an empty name (fixed by af5b74e5); VERIF_C14_EMPTY_FIELD=0 switches the families off.
+	maxFam := 9
+	if os.Getenv("VERIF_C14_EMPTY_FIELD") == "0" {
+		maxFam = 7
 	}
 	fam := rapid.IntRange(0, maxFam).Draw(t, "family")
 	switch {
